@@ -137,7 +137,7 @@ unit(K("cache_dir_ops", "c02_cleanup_temp_missing_dir", functions=CDIR, timeout=
 for n in ["sharded_get_01", "sharded_get_10", "sharded_touch_01", "sharded_set_absent", "sharded_set_in_secondary", "sharded_set_in_primary_heavy",
           "sharded_put_in_secondary", "sharded_put_absent_heavy", "sharded_set_absent_env", "sharded_put_absent_fault",
           "sharded_write_notrigger", "sharded_invalid_names"]:
-    unit(K("sharded_ops", n, functions=SHARDED, timeout=3000, mem_gb=10,
+    unit(K("sharded_ops", n, functions=SHARDED, timeout=3000, mem_gb=(18 if ("set" in n or "put" in n or "write" in n or "invalid" in n) else 10),
            bounds="3 shards, candidate shards fixed to (0,1)/(1,0) (mapping itself: engine M), each shard dir present/missing, "
                   "key absent / in primary / in secondary, arbitrary load estimates"))
 unit(K("sharded_ops", "c12_new_clamps", functions=["sharded::Cache::new"], bounds="num_shards 0..3, any capacity", timeout=900, rules=None))
